@@ -133,6 +133,7 @@ class NbSession:
         self.hint = rng.choice(['auto', 'auto', 'enable', 'disable'])
         self.indep = (mode == 'i') if mode else rng.chance(1, 4)
         self.erroneous = False
+        self.indep_now = False
 
     # ---- emission
     def emit(self, line):
@@ -164,6 +165,7 @@ class NbSession:
             s = Schema(rng, maxdims=3, maxvars=4, maxlen=5, want_rec=rng.chance(3, 4))
         self.s = s
         self.fmt = s.fmt
+        self.has_rec = any(l == 0 for _, l in s.dims)
 
     def fmt_req(self, r):
         """script tokens '<varid> <form> <memtype> <buf> <formargs>' of request r"""
@@ -220,7 +222,7 @@ class NbSession:
                 st = rng.below(lim)
                 c = rng.range(1, (lim - 1 - st) // t + 1)
             if self.big and i == 0 and v.isrec:
-                c = min(c, 2)
+                st = min(st, 1); c = min(c, 2)
             start.append(st); count.append(c); stride.append(t)
         return start, count, stride
 
@@ -428,9 +430,17 @@ class NbSession:
         self.ops.append(dict(op='inqbuf', ln=ln, rank=r, attached=self.attached[r],
                              pending_bytes=sum(q.nbytes for q in self.pending[r] if q.kind == 'bput')))
 
-    def do_inq_nreqs(self, r):
+    def do_inq_nreqs(self, r, f3=False):
         ln = self.emit('%d inq_nreqs %d' % (r, self.f))
-        self.ops.append(dict(op='nreqs', ln=ln, rank=r, expect=len(self.pending[r])))
+        self.ops.append(dict(op='nreqs', ln=ln, rank=r, expect=len(self.pending[r]), f3=f3))
+
+    def probe_shortcut(self, r, ann):
+        """the number of ids equals the number of pending requests of the kind but (NULL ids) not every pending
+        request is named: the SPEC leaves the unnamed ones pending - ask the library right away"""
+        if ann['erroneous'] or ann['n'] < 0 or not ann['shortcut']:
+            return
+        if len(ann['sel']) != len(ann['pending_before']):
+            self.do_inq_nreqs(r, f3=True)
 
     def pending_put_keys(self):
         return {(q.v.vid, i) for pl in self.pending for q in pl if q.isput for i in q.idxs}
@@ -504,11 +514,18 @@ class NbSession:
                 self.do_inq_nreqs(r)
         # completion plans per rank
         plans = [self.plan(r) for r in range(np_)]
+        self.indep_now = False
         if self.indep:
             self.emit('* begin_indep %d' % self.f)
+            self.indep_now = True
             for r in range(np_):
                 for step in plans[r]:
                     self.do_step(r, step, 'i')
+                if np_ > 1:
+                    # independent writes of different processes to neighbouring bytes race inside MPI-IO
+                    # (data sieving read-modify-write): one process at a time
+                    self.emit('* barrier')
+            self.indep_now = False
             self.emit('* end_indep %d' % self.f)
             ln = self.emit('* sync %d' % self.f)
             self.ops.append(dict(op='sync', ln=ln))
@@ -531,7 +548,7 @@ class NbSession:
                 self.do_inq_nreqs(r)
             if use_bput and rng.chance(1, 2):
                 self.do_inq_buffer(r)
-        if rng.chance(1, 3):
+        if rng.chance(1, 3) and self.has_rec:
             ln = self.emit('* inq_numrecs %d' % self.f)
             self.ops.append(dict(op='numrecs', ln=ln, expect=self.numrecs))
 
@@ -589,7 +606,7 @@ class NbSession:
                 else:
                     steps.append(('cancel', len(rest), toks(rest)))
             return steps
-        if c < 93:      # only NULL ids
+        if c < 95:      # only NULL ids
             n = rng.range(1, 3)
             return [('wait', n, ['N'] * n)]
         # erroneous: a duplicated id
@@ -669,6 +686,7 @@ class NbSession:
             ln = self.emit('%d wait %d i %d%s' % (r, self.f, n, (' ' + ' '.join(toks)) if toks else ''))
             ann = self.apply_spec(r, 'wait', n, toks, False)
             self.ops.append(dict(op='wait', coll=False, lns={r: ln}, args={r: (n, list(toks))}, anns={r: ann}))
+            self.probe_shortcut(r, ann)
         if self.poisoned[r]:
             self.cleanup_poisoned(r)
 
@@ -689,15 +707,33 @@ class NbSession:
             self.emit('}')
         anns = {r: self.apply_spec(r, 'wait', w[1], w[2], True) for r, w in enumerate(waits)}
         self.ops.append(dict(op='wait', coll=True, lns=lns, args={r: (w[1], list(w[2])) for r, w in enumerate(waits)}, anns=anns))
-        for r in range(np_):
-            if self.poisoned[r] and self.pending[r]:
-                self.cleanup_poisoned(r)
+        if not any(a['erroneous'] for a in anns.values()):
+            for r in range(np_):
+                self.probe_shortcut(r, anns[r])
+        if any(self.poisoned):
+            # an error on one process makes ncmpi_wait_all return early on ALL processes: stop using the queues
+            for r in range(np_):
+                self.poisoned[r] = True
+                self.cleanup_poisoned(r, retry=(np_ == 1))
 
-    def cleanup_poisoned(self, r):
-        """after an erroneous wait: show the state, then cancel everything of this rank"""
+    def cleanup_poisoned(self, r, retry=True):
+        """after an erroneous wait: show the state, try to complete one of the still pending requests by id
+        (valid per SPEC), then cancel everything of this rank"""
         self.do_inq_nreqs(r)
-        ln = self.emit('%d cancel %d -1' % (r, self.f))
         P = self.pending[r]
+        if retry and P and not self.indep_now:
+            pass
+        if retry and P:
+            q = P[0]
+            if self.np == 1 or self.indep_now:
+                mode = 'i' if self.indep_now else 'c'
+                ln = self.emit('%d wait %d %s 1 %d' % (r, self.f, mode, q.slot))
+                self.poisoned[r] = False
+                ann = self.apply_spec(r, 'wait', 1, [str(q.slot)], mode == 'c')
+                ann['retry_after_error'] = True
+                self.poisoned[r] = True
+                self.ops.append(dict(op='wait', coll=(mode == 'c'), lns={r: ln}, args={r: (1, [str(q.slot)])}, anns={r: ann}))
+        ln = self.emit('%d cancel %d -1' % (r, self.f))
         ann = dict(rank=r, kind='cancel', n=-1, toks=[], named=[], sel=list(P), erroneous=False, shortcut=False,
                    pending_before=list(P), completed=list(P), expect_get={}, after_erroneous=True,
                    nput=0, nget=0, coll=False, numrecs_before=self.numrecs)
@@ -717,8 +753,9 @@ class NbSession:
 
     def readback(self):
         f = self.f
-        ln = self.emit('* inq_numrecs %d' % f)
-        self.ops.append(dict(op='numrecs', ln=ln, expect=self.numrecs, final=True))
+        if self.has_rec:
+            ln = self.emit('* inq_numrecs %d' % f)
+            self.ops.append(dict(op='numrecs', ln=ln, expect=self.numrecs, final=True))
         for v in self.s.vars:
             if v.isrec and self.numrecs == 0:
                 continue
@@ -751,6 +788,11 @@ def coq_geom(view, vid):
     off, xsz, shape, isrec, recsize, xt = view.geom(vid)
     nrec = sum(1 for i in range(len(view.vars)) if view.geom(i)[3])
     return '(mkgeom %d %d %s %d %d)' % (off, xsz, zl(shape), recsize, nrec)
+
+
+def coq_case(name, sess, view):
+    lo, hi = data_region(view, sess)
+    return (name, sess.np, sess.hint, sess.fmt, lo, hi, coq_ops(sess, view))
 
 
 def coq_ops(sess, view):
@@ -820,14 +862,15 @@ def run_model(cases, workdir, tag, timeout=600):
     or raises C.BuildFailure"""
     src = ['From Pnc Require Import NbRun.', 'Local Open Scope Z_scope.', 'Set Printing Width 1000000.',
            'Set Printing Depth 100000000.']
-    for i, (name, np_, hint, fmt, term) in enumerate(cases):
+    for i, (name, np_, hint, fmt, lo, hi, term) in enumerate(cases):
         src.append('Definition ops_%d : list op :=\n  %s.' % (i, term))
-        src.append('Eval vm_compute in (%d, run (init_world %d %s %d) ops_%d).' % (i, np_, HINT[hint], fmt, i))
+        src.append('Eval vm_compute in (%d, run (init_world %d %s %d %d %d) ops_%d).' % (i, np_, HINT[hint], fmt, lo, hi, i))
     d = os.path.join(workdir, tag)
     os.makedirs(d, exist_ok=True)
     p = os.path.join(d, 'cases.v')
     open(p, 'w').write('\n'.join(src) + '\n')
-    rc, out = C.sh(['coqc', '-Q', C.COQ, 'Pnc', '-w', '-all', 'cases.v'], cwd=d, timeout=timeout)
+    rc, out = C.sh('ulimit -s 4000000 2>/dev/null || ulimit -s unlimited 2>/dev/null; exec coqc -Q %s Pnc -w -all cases.v' % C.COQ,
+                   cwd=d, timeout=timeout)
     if rc != 0:
         raise C.BuildFailure('model run failed (%s):\n%s' % (tag, out[-3000:]))
     res = {}
@@ -874,7 +917,7 @@ def data_region(view, sess):
         off0, xsz, shape, isrec, recsize, xt = view.geom(v.vid)
         n = prod(shape[1:] if isrec else shape)
         if isrec:
-            hi = max(hi, off0 + 8 * recsize + n * xsz)
+            hi = max(hi, off0 + (3 if sess.big else 8) * recsize + n * xsz)
         else:
             hi = max(hi, off0 + n * xsz)
     return lo, hi
@@ -1113,12 +1156,16 @@ def compare(sess, iv, rows):
         elif k == 'get':
             m = (by.get((10, o['ln'], 0)) or [None])[0]
             t = iv.get(o['ln'], 0)
-            if t is None or m is None or int(t[1]) not in (0, ERANGE):
-                add('corr_C02_readback', o['ln'], 0, 'missing or failed: %s' % (t[:3] if t else t)); continue
+            if t is None or m is None:
+                add('corr_C02_readback', o['ln'], 0, 'missing: %s' % (t[:2] if t else t)); continue
             ncmp += 1
+            if int(t[1]) != m[3] and not (int(t[1]) == ERANGE and m[3] == 0):
+                add('corr_C02_readback', o['ln'], 0, 'rc %s model %d: %s' % (t[1], m[3], sess.lines[o['ln'] - 1])); continue
+            if m[3] != 0:
+                continue
             body = bytes.fromhex(t[2])[G:-G] if t[2] != '-' else b''
             v = o['v']; xs = ELSIZE[v.xtype]
-            mb = m[3:]
+            mb = m[4:]
             for kx in range(len(mb) // xs):
                 e = mb[kx * xs:(kx + 1) * xs]
                 if any(x < 0 for x in e):
@@ -1167,8 +1214,15 @@ def key_for(kind, ann=None, extra=''):
 def judge(sess, iv):
     """the property evaluated on the implementation's observations alone.  returns list of dict(kind, key, line, rank, detail)"""
     fails = []
+    ctx = dict(key=None, stop=False)
+    DERAIL = {'post-rc', 'bput-refused', 'status', 'wait-rc', 'nreqs', 'late-or-early-delivery', 'id-not-reset',
+              'no-observation', 'readback-rejected'}
     def fail(kind, key, ln, r, detail):
+        if ctx['key'] and not key.startswith('F'):
+            key = ctx['key']          # consequence of an earlier erroneous call (see the generator)
         fails.append(dict(kind=kind, key=key, line=ln, rank=r, detail=detail))
+        if kind in DERAIL or ctx['key']:
+            ctx['stop'] = True        # the SPEC's and the library's sets of pending requests differ from here on
     view = iv.view
     if view is None:
         fail('no-inq', 'no-inq', 0, 0, 'no usable inq line')
@@ -1219,8 +1273,9 @@ def judge(sess, iv):
                     bad = None
                     lo, hi = TYPE_RANGE[q.memk]
                     for kx in range(q.nelems):
+                        sel.update(range(pos[kx] * es, pos[kx] * es + es))
+                    for kx in range(q.nelems):
                         o_ = pos[kx] * es
-                        sel.update(range(o_, o_ + es))
                         val = want[kx] if want else None
                         if val is None or not (lo <= val <= hi):
                             continue
@@ -1230,7 +1285,7 @@ def judge(sess, iv):
                     if bad:
                         others = [p for p in ann['sel'] if (not p.isput) and p is not q]
                         mine = {(q.v.vid, i) for i in q.idxs}
-                        ov = any((p.v.vid, i) in mine for p in others for i in p.idxs)
+                        ov = any((p.v.vid, i) in mine for p in others for i in p.idxs) or len(set(q.idxs)) != len(q.idxs)
                         key = 'F2:get-overlapping-reads-one-wait' if ov else 'get-buffer-wrong'
                         fail('get-buffer', key, ln, r, 'slot %d (line %d) element #%d holds %s expected %s (value %d)%s' %
                              (slot, q.line, bad[0], bad[1], bad[2], bad[3], '; another get of the same wait reads the same elements' if ov else ''))
@@ -1250,8 +1305,9 @@ def judge(sess, iv):
                              'get buffer of slot %d (line %d) changed although the request was %s' %
                              (slot, q.line, 'cancelled' if is_cancel else 'not named'))
 
-    spec_alloc = [None] * sess.np
     for o in sess.ops:
+        if ctx['stop']:
+            break
         k = o['op']
         if k == 'post':
             q = o['req']; r = q.rank; ln = o['ln']
@@ -1267,6 +1323,9 @@ def judge(sess, iv):
                          % (q.nbytes, sess_attached(sess, o), sess_pending_bytes(sess, o), sess.lines[ln - 1]))
                 elif rc == ERANGE:
                     pass
+                elif q.kind == 'iget' and q.v.isrec and rc in (-40, -57) and q.exp_rc == 0:
+                    fail('post-rc', 'F1:numrecs-after-wait', ln, r, 'iget of existing records rejected (rc %d): the library lost '
+                         'records written by completed nonblocking puts: %s' % (rc, sess.lines[ln - 1]))
                 else:
                     fail('post-rc', 'post-rc', ln, r, 'rc %d expected %d: %s' % (rc, q.exp_rc, sess.lines[ln - 1]))
             if q.queued_spec and rc == 0:
@@ -1279,11 +1338,14 @@ def judge(sess, iv):
                 items = [(r, o['lns'][r], o['args'][r], o['anns'][r]) for r in sorted(o['args'])]
             else:
                 items = [(o['rank'], o['ln'], (o['n'], o['toks']), o['ann'])]
+            anyerr = [a for _, _, _, a in items if a['erroneous']]
             for r, ln, (n, toks), ann in items:
                 t = iv.get(ln, r)
                 if t is None:
                     fail('no-observation', 'no-observation', ln, r, sess.lines[ln - 1]); continue
                 rc = int(t[1])
+                if anyerr and not ann['erroneous'] and not ctx['key']:
+                    ctx['key'] = 'waitall:error-on-one-process-drops-the-others'
                 pairs = t[3:3 + max(n, 0)]
                 stats = [tuple(int(x) for x in p.split(':')) for p in pairs if ':' in p]
                 if ann['erroneous']:
@@ -1291,6 +1353,8 @@ def judge(sess, iv):
                     check_dump(ln, r, t[3 + max(n, 0):], [], [], ann=ann)
                     for key in [(r, int(x)) for x in toks if x != 'N']:
                         live.pop(key, None)
+                    if not ctx['key'] and len(items) == 1:
+                        ctx['key'] = 'F3:duplicate-ids-complete-unnamed-shortcut' if ann['shortcut'] else 'wait:failed-wait-poisons-named-requests'
                     continue
                 exp_status = []
                 for x in ann['named']:
@@ -1338,7 +1402,9 @@ def judge(sess, iv):
         elif k == 'nreqs':
             t = iv.get(o['ln'], o['rank'])
             if t is not None and int(t[1]) == 0 and int(t[2]) != o['expect']:
-                fail('nreqs', 'nreqs', o['ln'], o['rank'], 'inq_nreqs reports %s, %d requests are pending' % (t[2], o['expect']))
+                fail('nreqs', 'F3:unnamed-completed-shortcut' if o.get('f3') else 'nreqs', o['ln'], o['rank'],
+                     'inq_nreqs reports %s, %d requests are pending%s' % (t[2], o['expect'],
+                     ' (the preceding wait named as many ids, NULL ids included, as there are pending requests: it completed requests it did not name)' if o.get('f3') else ''))
         elif k == 'inqbuf':
             t = iv.get(o['ln'], o['rank'])
             if t is None:
